@@ -918,6 +918,7 @@ def run_metamorphic(simA, ops, transform=None, prop='C10', what='declared-implic
                 continue
             targets = simA.targets_for(op['sel'])
             nA = len(simA.findings)
+            nB = len(simB.findings)
             simA.last_model_before = simA.model.clone()
             simB.last_model_before = simB.model.clone()
             simA.now = simB.now = max(simA.now, simB.now)
@@ -931,6 +932,12 @@ def run_metamorphic(simA, ops, transform=None, prop='C10', what='declared-implic
                 for f in simA.findings[nA:]:
                     if f['known']:
                         simA.add(prop, 'differs from the %s variant (attributed)' % what, dict(via=f['kind']), known=f['known'])
+                break
+            if any(f['known'] for f in simB.findings[nB:]):
+                # ... and so is variant B when the recorded finding shows there (its own oracles attribute it)
+                for f in simB.findings[nB:]:
+                    if f['known']:
+                        simA.add(prop, 'differs from the %s variant (attributed, seen in that variant)' % what, dict(via=f['kind']), known=f['known'])
                 break
             stA = sorted(ev['edge'] for ev in rA['trace'] if ev['ev'] == 'start')
             stB = sorted(ev['edge'] for ev in rB['trace'] if ev['ev'] == 'start')
